@@ -1155,3 +1155,63 @@ def seed_width_rule(res, prog, rule, module_prefixes=None):
     if not bad:
         res.discharged += 1
     res.rule(rule, n, 4, "hasher seeding sites outside the hash module (seed carried at 64 bits)")
+
+
+# ------------------------------------------------------------------------------------------------ image value clobbered by a later setter
+def clobbered_after_set(prog, fns):
+    """in each function of `fns`: an object local receives a field value through a setter call (`est.set_hip_accum(v)`: the callee
+    stores its parameter into field F of `&mut self`) and a later call on the same local, dominated by the first, runs a callee that
+    stores a *constant* into the same F (`est.set_out_of_order(true)` zeroes the accumulator): on the paths where that store runs the
+    value set first is gone.  yields (fn, field, setter, clobberer, span)"""
+    eff = {}
+
+    def effects(cid):
+        """(fields stored from a parameter, fields stored from a constant) by the callee's own body"""
+        if cid not in eff:
+            from_param, from_const = set(), set()
+            g = prog.fns.get(cid)
+            if g is not None and g.argc >= 1 and g.local_ty(1).startswith("&mut"):
+                sg = None
+                for (ff, b, kind, place, rv, span, adt, fld) in sym.field_stores(prog, fns=[g]):
+                    if kind != "assign" or rv is None or ir.pl_local(place) != 1:
+                        continue
+                    sg = sg or Sym(prog, g, ifconv=False)
+                    try:
+                        e = sg.at(b, "t").rvalue(rv)
+                    except Exception:
+                        continue
+                    while e[0] == "cast":
+                        e = e[1]
+                    if e[0] == "param" and e[1] >= 2:
+                        from_param.add(fld)
+                    elif e[0] == "const":
+                        from_const.add(fld)
+            eff[cid] = (from_param, from_const)
+        return eff[cid]
+    for f in fns:
+        calls = []
+        for b, site in f.calls():
+            cal = site.get("callee")
+            if cal not in prog.fns or not site["args"]:
+                continue
+            pl = ir.op_place(site["args"][0])
+            if pl is None:
+                continue
+            # `&mut est` is a temporary: find the local it borrows
+            loc = ir.pl_local(pl)
+            d = f.single_def(loc)
+            if d is not None and d[2] == "assign":
+                rv = f.blocks[d[0]].stmts[d[1]][2]
+                if rv[0] == "ref":
+                    loc = ir.pl_local(rv[2])
+            calls.append((b, cal, loc, site))
+        for (b1, c1, l1, s1) in calls:
+            fp, _ = effects(c1)
+            if not fp:
+                continue
+            for (b2, c2, l2, s2) in calls:
+                if l2 != l1 or b2 == b1 or not f.dominates(b1, b2):
+                    continue
+                _, fc = effects(c2)
+                for fld in sorted(fp & fc):
+                    yield f, fld, c1, c2, s2.get("span")
